@@ -212,7 +212,7 @@ def expected_pipeline(p):
 
 
 MODE_PALETTES = {
-    "exposure": ["null", "list", "scalar", "nparray", "arange", "linspace", "file", "outputs"],
+    "exposure": ["null", "list", "scalar", "nparray", "arange", "linspace", "file", "file-row", "file-line", "outputs"],
     "observation": ["product-lists", "product-numpy", "sequential", "disabled-step", "dask"],
     "calibration": ["one-parameter", "vector-parameter", "readout"],
 }
@@ -229,10 +229,20 @@ def mode_desc(mode, pal, tmp):
                    "linspace": {"times": "numpy.linspace(1, 3, 3)", "start_time": 0.25, "non_destructive": True},
                    "outputs": {"times": [1.0, 2.0]}}.get(pal)
         times = {"list": [1.0, 2.0, 4.0], "scalar": [2.5], "nparray": [0.5, 1.0, 2.0], "arange": [1.0, 2.0, 3.0],
-                 "linspace": [1.0, 2.0, 3.0], "outputs": [1.0, 2.0], "null": [1.0], "file": [1.0, 3.0]}[pal]
+                 "linspace": [1.0, 2.0, 3.0], "outputs": [1.0, 2.0], "null": [1.0], "file": [1.0, 3.0],
+                 "file-row": [1.0, 3.0, 4.5], "file-line": [1.0, 2.5, 4.0, 8.0]}[pal]
         if pal == "file":
             path = os.path.join(tmp, "times.npy")
             np.save(path, np.array([1.0, 3.0]))
+            readout = {"times_from_file": path}
+        elif pal == "file-row":          # the times stored as ONE ROW of a 2-D array
+            path = os.path.join(tmp, "times_row.npy")
+            np.save(path, np.array([[1.0, 3.0, 4.5]]))
+            readout = {"times_from_file": path}
+        elif pal == "file-line":         # ... as one comma-separated line of a text table
+            path = os.path.join(tmp, "times_line.csv")
+            with open(path, "w") as fh:
+                fh.write("1.0,2.5,4.0,8.0\n")
             readout = {"times_from_file": path}
         doc = None if pal == "null" else {"readout": readout}
         exp = {"readout": {"times": times, "start_time": (readout or {}).get("start_time", 0.0),
@@ -496,6 +506,34 @@ def _run(mode_obj, det, pipe, mode):
     return tree, trace
 
 
+def _load_and_scribble(text):
+    """Load the document and change the loaded objects in place through public attributes."""
+    import pyxel
+
+    try:
+        c0 = pyxel.loads(text)
+    except Exception:  # noqa: BLE001  (refusals are judged on the load under test)
+        return
+    steps = [
+        lambda: setattr(c0.running_mode.readout, "times", [7.0, 8.0, 9.0]),
+        lambda: setattr(c0.running_mode.readout, "non_destructive", not c0.running_mode.readout.non_destructive),
+        lambda: setattr(c0.running_mode, "pipeline_seed", 987),
+        lambda: setattr(c0.detector.environment, "temperature", 77.0),
+        lambda: setattr(c0.detector.characteristics, "quantum_efficiency", 0.0625),
+    ]
+    for grp in c0.pipeline.model_group_names:
+        g = getattr(c0.pipeline, grp)
+        for m in (g.models if g else []):
+            steps.append(lambda m=m: setattr(m, "enabled", not m.enabled))
+            for k in list(m.arguments):
+                steps.append(lambda m=m, k=k: m.arguments.__setitem__(k, "scribbled"))
+    for st in steps:
+        try:
+            st()
+        except Exception:  # noqa: BLE001
+            pass
+
+
 def run_doc(case):
     import pyxel
 
@@ -525,6 +563,9 @@ def run_doc(case):
                    "pipeline": pdesc}
         text = yaml_text(docdict)
         try:
+            # an earlier load of the SAME document whose objects the user then changed: the load under test must not see
+            # any of that (no object may be shared between two loads)
+            _load_and_scribble(text)
             cfg = pyxel.loads(text)
             accepted = True
         except Exception as e:  # noqa: BLE001
